@@ -2022,11 +2022,17 @@ class BaseInterpreter(Generic[TContext, TEvent]):
                 child.type == "history" for child in state.states.values()
             ):
                 continue
-            remembered = [
-                node
-                for node in self._active_state_nodes
-                if node is not state and self._is_descendant(node, state)
-            ]
+            # 🔀 `_active_state_nodes` is a set: sort so the remembered list,
+            #    and with it the order restored states are entered in, does
+            #    not depend on hash seeds (same key as the exit order).
+            remembered = sorted(
+                (
+                    node
+                    for node in self._active_state_nodes
+                    if node is not state and self._is_descendant(node, state)
+                ),
+                key=lambda n: (n.depth, n.id),
+            )
             if remembered:
                 self._history[state.id] = remembered
                 logger.debug(
